@@ -551,7 +551,7 @@ func (g *routerGen) reqHeaders() []*Sx {
 	var out []*Sx
 	for _, n := range []string{"X-K", "User-Agent", "Accept"} {
 		if rng.Intn(2) == 0 {
-			out = append(out, T("h", X(n), X([]string{"v", "", "12", "a", "ab", "xvx", "b"}[rng.Intn(7)])))
+			out = append(out, T("h", X(n), X([]string{"v", "", "12", "a", "ab", "xvx", "b", " v", "ab ", " ", "\t12"}[rng.Intn(11)]))) // blanks are part of the value
 		} else if rng.Intn(12) == 0 {
 			out = append(out, T("h", X(n), A("novalues"))) // the key is in the header map with an empty list of values
 		}
@@ -1014,6 +1014,12 @@ func genC12(rng *rand.Rand, n int, tier string, emit func(*Sx)) {
 				ops = append(ops, T("url", X(nm), T("pairs", pairs...), T("ctx")))
 			} else {
 				ops = append(ops, T("url", X(nm), T("pairs", pairs...)))
+			}
+			if len(pairs) >= 4 && rng.Intn(3) == 0 {
+				// the same route once more with the second pair folded into the value of the first ("1 b:2"): two
+				// different sets of values that a careless printout cannot tell apart
+				folded := X(pairs[1].Bytes() + " " + pairs[2].Bytes() + ":" + pairs[3].Bytes())
+				ops = append(ops, T("url", X(nm), T("pairs", append([]*Sx{pairs[0], folded}, pairs[4:]...)...)))
 			}
 			// requests whose parameters are then fed back (checked by the model)
 			if rng.Intn(2) == 0 {
